@@ -40,6 +40,24 @@ fn analyze(lines: &[String]) -> Result<Vec<Option<String>>, String> {
     Ok(v)
 }
 
+/// As `analyze`, with the file listing the lines in a shuffled order (a program is
+/// its numbered lines, however the file arranges them); verdicts come back per line.
+fn analyze_shuffled(lines: &[String], seed: u64) -> Result<Vec<Option<String>>, String> {
+    let n = lines.len();
+    let mut order: Vec<usize> = (0..n).collect();
+    for i in (1..n).rev() {
+        let j = (splitmix(seed ^ (i as u64).wrapping_mul(0x9E37)) % (i as u64 + 1)) as usize;
+        order.swap(i, j);
+    }
+    let file: Vec<String> = order.iter().map(|&i| lines[i].clone()).collect();
+    let v = analyze(&file)?;
+    let mut back = vec![None; n];
+    for (pos, &i) in order.iter().enumerate() {
+        back[i] = v[pos].clone();
+    }
+    Ok(back)
+}
+
 fn crunch_upper(s: &str) -> String {
     s.chars().filter(|c| !c.is_ascii_whitespace()).map(|c| c.to_ascii_uppercase()).collect()
 }
@@ -197,7 +215,9 @@ fn check(c: &AgreeCase, rec: &mut CaseRec) -> Verdict {
         let i = idx(d.line, lines.len());
         lines[i] = damage_text(&lines[i], d);
     }
-    let verdicts = match analyze(&lines) {
+    // one case in three presents the lines to the analyzer in a shuffled file order
+    let shuffled = c.seed % 3 == 0 && lines.len() > 1;
+    let verdicts = match if shuffled { analyze_shuffled(&lines, c.seed) } else { analyze(&lines) } {
         Ok(v) => v,
         Err(p) => return Verdict::fail("analyzer-panic", format!("{} on {:?}", p, lines)),
     };
@@ -284,6 +304,9 @@ fn check(c: &AgreeCase, rec: &mut CaseRec) -> Verdict {
     if !c.damage.is_empty() {
         rec.class("damaged");
     }
+    if shuffled {
+        rec.class("file-order-shuffled");
+    }
     rec.extra_evals = executions as u64 + dir2 as u64;
     rec.nontrivial_if((accepted && executions >= 4) || dir2 > 0, hash_str(&lines.join("\n")));
     Verdict::Pass
@@ -342,7 +365,7 @@ pub fn property() -> Property {
     ];
     Property {
         id: "C06",
-        rule: "Single numbered lines (1-3 statements from every statement template incl. IF/THEN/ELSE, FOR, NEXT, GOTO, GOSUB, READ, DATA, DIM, DEF, INPUT, calls) and small programs (DEFs first, each function defined at most once) in three modes: well-typed, ill-typed (kind errors injected in operands, subscripts, FOR bounds, assignment targets, arguments) and damaged (a word deleted / duplicated / swapped, the line truncated, a `$` added or stripped, a numeral given a fractional part, or a word replaced by / preceded with an array cell, a call, a value of the other kind, stray punctuation or a keyword). Direction 1: when the analyzer reports no error, the program is executed by RUN and, after executing its DEF lines, by GOTO to each of its first 24 lines under three variable environments (all unset, all 1/\"a\", mixed) with mixed numeric/text replies, 300 calls each; no execution may end in a syntax error, TYPE MISMATCH or UNDEF'D STATEMENT. Direction 2: every file line the analyzer rejects and whose text contains no IF/THEN/ELSE/GOTO/GOSUB/RETURN/NEXT/END/STOP/INPUT/DEF and no user-function name is entered alone into a fresh interpreter and RUN; it must fail. Each execution is one evaluation. Non-trivial: an accepted program with >= 4 executions, or a rejected straight-line line confirmed; distinct by text.",
+        rule: "Single numbered lines (1-3 statements from every statement template incl. IF/THEN/ELSE, FOR, NEXT, GOTO, GOSUB, READ, DATA, DIM, DEF, INPUT, calls) and small programs (DEFs first, each function defined at most once; one case in three hands the lines to the analyzer in a shuffled file order) in three modes: well-typed, ill-typed (kind errors injected in operands, subscripts, FOR bounds, assignment targets, arguments) and damaged (a word deleted / duplicated / swapped, the line truncated, a `$` added or stripped, a numeral given a fractional part, or a word replaced by / preceded with an array cell, a call, a value of the other kind, stray punctuation or a keyword). Direction 1: when the analyzer reports no error, the program is executed by RUN and, after executing its DEF lines, by GOTO to each of its first 24 lines under three variable environments (all unset, all 1/\"a\", mixed) with mixed numeric/text replies, 300 calls each; no execution may end in a syntax error, TYPE MISMATCH or UNDEF'D STATEMENT. Direction 2: every file line the analyzer rejects and whose text contains no IF/THEN/ELSE/GOTO/GOSUB/RETURN/NEXT/END/STOP/INPUT/DEF and no user-function name is entered alone into a fresh interpreter and RUN; it must fail. Each execution is one evaluation. Non-trivial: an accepted program with >= 4 executions, or a rejected straight-line line confirmed; distinct by text.",
         assumptions: vec![
             "branch forcing is by start line and variable environment, not exhaustive over conditions",
             "starting execution at any line after the DEFs ran is a legitimate execution of the program",
